@@ -36,7 +36,8 @@ REQUIRED_BUCKETS = ["fault:state", "fault:relay", "fault:cap", "fault:crit", "fa
                     "inv-fault:crit", "silence>maxage:bat", "silence>maxage:inv", "silence<maxage", "set-power-failed",
                     "set-power-succeeded", "blocked-twice(back-off)", "back-off-capped", "recovered", "uncertain-seen",
                     "pool-fallback-to-uncertain", "pool-tier", "pool-fallback-to-uncertain(live)",
-                    "pool-outcome-messages-back-to-back", "process-in-a-daylight-saving-zone-across-the-end-of-dst"]
+                    "pool-outcome-messages-back-to-back", "process-in-a-daylight-saving-zone-across-the-end-of-dst",
+                    "pool-battery-turns-faulty-right-after-the-outcome-messages"]
 REQUIRED_COUNTERS = ["status_reports_checked", "block_calls_observed", "scripts_run"]
 ASSUMPTIONS = ["virtual clock; fake API"]
 
@@ -433,7 +434,10 @@ def gen_pool(rng: Any) -> dict[str, Any]:
                        # further outcome messages handed over back to back (no suspension in between), each
                        # battery: "s" succeeded / "f" failed / "-" not mentioned
                        "burst": ([[rng.choice("sf--") for _ in range(nb)] for _ in range(rng.randint(1, 3))]
-                                 if rng.random() < 0.5 else [])})
+                                 if rng.random() < 0.5 else []),
+                       # right after the outcome messages (while a failed battery is still blocked) these batteries
+                       # report a faulty state: uncertain -> not working
+                       "then_unhealthy": [rng.random() < 0.25 for _ in range(nb)]})
     return {"tier": "pool", "nb": nb, "phases": phases}
 
 
@@ -480,6 +484,11 @@ async def _drive_pool(case: dict[str, Any], out: dict[str, Any]) -> None:
                                      {10 + b for b in range(nb) if msg[b] == "f"})
         if failed or ph.get("burst"):
             await asyncio.sleep(0.05)
+        for b in range(nb):
+            if ph.get("then_unhealthy", [False] * nb)[b]:
+                await api.feed(10 + b, dataclasses.replace(bmsg("state", 0.0), component_id=10 + b))
+        if any(ph.get("then_unhealthy", [])):
+            await asyncio.sleep(0.05)
         last = None
         while rx._q:  # noqa: SLF001
             last = rx.consume()
@@ -510,7 +519,9 @@ def check_pool(case: dict[str, Any], rec: Any) -> None:
     nb = case["nb"]
     for cp in out["checkpoints"]:
         ph = cp["phase"]
-        healthy = {10 + b for b in range(nb) if ph["healthy"][b]}
+        healthy = {10 + b for b in range(nb) if ph["healthy"][b] and not ph.get("then_unhealthy", [False] * nb)[b]}
+        if any(ph.get("then_unhealthy", [])):
+            rec.bucket("pool-battery-turns-faulty-right-after-the-outcome-messages")
         # every outcome message counts, in the order handed over: a success clears the block, a failure blocks
         failed = set()
         msgs = ([["f" if x else "-" for x in ph["fail"]]] if any(ph["fail"]) else []) + ph.get("burst", [])
